@@ -126,6 +126,13 @@
 #define INSERT_VALUE_SQL "insert into item_value (container_id, name, row_num, " \
     "kind, quoted, val_text, val, val_digits, su_digits, scale) values (?, ?, ?, ?, ?, ?, ?, ?, ?, ?)"
 
+/*
+ * Records the explicit unknown value for every item of the specified loop that does not yet have a value in the
+ * specified packet (row)
+ */
+#define FILL_PACKET_SQL "insert or ignore into item_value (container_id, name, row_num, kind) " \
+    "select container_id, name, ?3, 5 from loop_item where container_id = ?1 and loop_num = ?2"
+
 #define UPDATE_VALUE_SQL "insert or replace into item_value (container_id, name, row_num, " \
     "kind, quoted, val_text, val, val_digits, su_digits, scale) values (?, ?, ?, ?, ?, ?, ?, ?, ?, ?)"
 
